@@ -43,6 +43,9 @@ fn scenario(name: &str) -> Scenario {
         "reindex" => Scenario { dim: 2, base_items: 10, indexes: 2, versions: 3, collapse: false, memory: None, metric: Metric::Euclidean, clear_in: Some(2) },
         "small" => Scenario { dim: 2, base_items: 6, indexes: 1, versions: 3, collapse: false, memory: None, metric: Metric::Euclidean, clear_in: None },
         "collapse" => Scenario { dim: 4, base_items: 14, indexes: 2, versions: 4, collapse: true, memory: None, metric: Metric::Euclidean, clear_in: None },
+        // wide vectors: the split nodes a build writes to its scratch file exceed the 8 KiB of a buffered writer well
+        // before the phase ends, so a kill inside IncrementalIndexLargeDescendants leaves a partly written file behind
+        "wide" => Scenario { dim: 64, base_items: 330, indexes: 1, versions: 2, collapse: false, memory: None, metric: Metric::Euclidean, clear_in: None },
         "large" => Scenario { dim: 8, base_items: 300, indexes: 2, versions: 4, collapse: false, memory: None, metric: Metric::Euclidean, clear_in: None },
         // several insertion batches per build: 250 items, then 450 more, under a zero memory hint
         "batches" => Scenario { dim: 4, base_items: 210, indexes: 1, versions: 3, collapse: false, memory: Some(0), metric: Metric::Euclidean, clear_in: None },
@@ -341,11 +344,11 @@ pub fn run(tier: Tier) -> i32 {
     let mut report = Report::new("C09", tier, "fault_enumeration");
     report.assume("process kill, not power loss: the page cache survives; torn sectors and lost unsynced blocks exercise LMDB, which the property trusts");
     report.assume("kill points are the script's events (API boundaries, cancel polls, progress calls) and the boundaries of the write-family system calls on data.mdb");
-    let names: &[&str] = if tier == Tier::Quick { &["small", "dot", "reindex", "collapse", "batches", "large"] } else { &["small", "dot", "reindex", "collapse", "batches", "large", "xl"] };
+    let names: &[&str] = if tier == Tier::Quick { &["small", "dot", "reindex", "collapse", "batches", "wide", "large"] } else { &["small", "dot", "reindex", "collapse", "batches", "wide", "large", "xl"] };
     for n in names {
-        // quick tier: in the two bulk scenarios the history is resumed after every 6th event kill
+        // quick tier: in the three bulk scenarios the history is resumed after every 6th event kill
         // (and after every system-call kill); everywhere else after every kill
-        let resume_every = if tier == Tier::Quick && (*n == "large" || *n == "batches") { 6 } else { 1 };
+        let resume_every = if tier == Tier::Quick && (*n == "large" || *n == "batches" || *n == "wide") { 6 } else { 1 };
         run_scenario(&mut report, n, resume_every);
         if !report.violations.is_empty() || !report.machinery_errors.is_empty() {
             break;
